@@ -212,3 +212,100 @@ def hands_on_remainder(fn, head, body):
         if not [b for b in latches if b in r and b not in good_blocks]:
             return nm
     return None
+
+
+GROWERS = ("Vec::<T, A>::push", "Vec::<T, A>::insert", "Vec::<T, A>::extend_from_slice", "Vec::<T, A>::resize", "String::push_str", "String::push",
+           "SmallVec::<A>::push", "SmallVec<A>::push", "VecDeque::<T, A>::push_back", "::extend")
+
+
+def _every_alternative_is_a_call_result(fn, op):
+    e = df.operand_expr(fn, op)
+    alts = df.alternatives(fn, e) or [e]
+
+    def strip(x, depth=0):
+        while isinstance(x, tuple) and x and x[0] in ("field", "downcast", "ref", "deref", "cast") and len(x) > 1 and depth < 40:
+            x = x[1]
+            depth += 1
+        return x
+    out = []
+    for a in alts:
+        a = strip(a)
+        if isinstance(a, tuple) and a and a[0] == "agg" and len(a) > 3:
+            # a tuple / Ok(..) built in an arm: look at what is put in (any component that is a plain variable disqualifies)
+            comps = [strip(c) for c in a[3]] if isinstance(a[3], (list, tuple)) else []
+            out.append(all(isinstance(c, tuple) and c and c[0] in ("call", "const", "agg") for c in comps))
+        else:
+            out.append(isinstance(a, tuple) and bool(a) and a[0] == "call")
+    return all(out)
+
+
+def _consuming_blocks(fn, body):
+    """Blocks of the loop body that re-assign a slice-typed user variable from (something derived from) the result of a call that was
+    given that variable: the remaining input moves on."""
+    d = df.defs_of(fn)
+    good = set()
+    for l, nm in sorted(fn.names.items()):
+        ty = fn.local_ty(l)
+        if not (ty.startswith("&[") or ty == "&str"):
+            continue
+        for dd in d.all(l):
+            if dd[0] != "stmt" or dd[1] not in body:
+                continue
+            src = df.operand_trace(fn, dd[3]["rv"]["op"]) if dd[3]["rv"]["k"] == "use" else set()
+            if dd[3]["rv"]["k"] == "use" and not _every_alternative_is_a_call_result(fn, dd[3]["rv"]["op"]):
+                continue        # on some way the "new" remainder is the old one (`(input, pad)` standing in for a parsed line)
+            for sl in src:
+                for d2 in d.all(sl):
+                    if d2[0] in ("call", "pcall") and d2[1] in body and \
+                            any(a.get("k") in ("copy", "move") and l in df.operand_trace(fn, a) for a in d2[2]["args"]):
+                        good.add(dd[1])
+    # ... or advance a cursor into it: `index += c` (c >= 1) for a variable that is used to index / `get` a slice inside the loop
+    from .facts import callee_of
+    cursors = set()
+    for bb in body:
+        t = fn.blocks[bb]["term"]
+        if t["k"] == "call" and not fn.blocks[bb]["cleanup"]:
+            rp = callee_of(t).get("rpath") or callee_of(t).get("path") or ""
+            if rp.endswith(("::get", "Index<I>>::index", "::get_unchecked")) and len(t["args"]) >= 2 and \
+                    (t["argtys"][0] if t["argtys"] else "").lstrip("&").startswith("["):
+                cursors |= {l for l in df.operand_trace(fn, t["args"][1]) if fn.names.get(l)}
+        elif t["k"] == "assert" and "BoundsCheck" in str(t.get("msg")):
+            cursors |= {l for l in df._operand_locals(t["cond"]) if fn.names.get(l)} if isinstance(t.get("cond"), dict) else set()
+    for l in cursors:
+        if not str(fn.local_ty(l)).startswith(("usize", "u32", "u64")):
+            continue
+        for dd in d.all(l):
+            if dd[0] != "stmt" or dd[1] not in body:
+                continue
+            e = df.rvalue_expr(fn, dd[3]["rv"])
+            x = e
+            if isinstance(x, tuple) and x and x[0] == "field" and x[2] == 0 and isinstance(x[1], tuple) and x[1] and x[1][0] in ("bin", "chk"):
+                x = x[1]
+            if isinstance(x, tuple) and len(x) > 3 and x[0] in ("bin", "chk") and str(x[1]).startswith("Add") and \
+                    isinstance(x[3], tuple) and x[3][0] == "const" and isinstance(x[3][1], int) and x[3][1] >= 1 and \
+                    df.mentions(x[2], lambda y: isinstance(y, tuple) and y and y[0] in ("local", "var") and y[1] == l):
+                good.add(dd[1])
+    return good
+
+
+def unpaid_growth(fn, head, body):
+    """Growth sites (push / insert / extend ...) of a loop that can be crossed on a way round the loop on which no input is consumed.
+    Returns [(bb, term)]."""
+    from .facts import callee_of
+    latches = [b for b in fn.preds()[head] if b in body]
+    good = _consuming_blocks(fn, body)
+    out = []
+    for bb in sorted(body):
+        t = fn.blocks[bb]["term"]
+        if t["k"] != "call" or fn.blocks[bb]["cleanup"]:
+            continue
+        rp = callee_of(t).get("rpath") or callee_of(t).get("path") or ""
+        if not rp.endswith(GROWERS) or bb in good:
+            continue
+        to_g = cfg.reachable(fn, [sx for sx in fn.succs(head) if sx in body and sx not in good], blocked=good | {head})
+        if bb not in to_g and bb != head:
+            continue
+        from_g = cfg.reachable(fn, [sx for sx in fn.succs(bb) if sx in body and sx not in good], blocked=good | {head})
+        if any(l_ in from_g or l_ == bb for l_ in latches):
+            out.append((bb, t))
+    return out
